@@ -667,6 +667,27 @@ m('undo-gives-up-after-first-loser', ['C02', 'C03'], LR, """			lsn = logRecord.P
 		if isUndoOccured {
 			break
 		}""", ['C03-R7 [LogRecovery.Undo:loops-run-to-completion]'])
+m('unpin-sets-dirty-after-unlock', ['C13', 'C19'], BPM, """		if pg.IsDirty() || isDirty {
+			pg.SetIsDirty(true)
+		} else {
+			pg.SetIsDirty(false)
+		}
+		b.mutex.Unlock()
+""", """		dirtyNow := pg.IsDirty() || isDirty
+		b.mutex.Unlock()
+		pg.SetIsDirty(dirtyNow)
+""", ['C13-R1 [BPM.UnpinPage:metadata-under-mutex]'])
+m('hash-update-inserts-before-delete', ['C07', 'C17'], 'lib/storage/index/linear_probe_hash_table_index.go', """	htidx.DeleteEntry(oldKey, oldRID, transaction)
+	htidx.InsertEntry(newKey, newRID, transaction)
+}""", """	htidx.InsertEntry(newKey, newRID, transaction)
+	htidx.DeleteEntry(oldKey, oldRID, transaction)
+}""", ['C17-R1 [LinearProbeHashTableIndex.UpdateEntry:delete-before-insert]'])
+m('skiplist-update-inserts-before-delete', ['C07', 'C17'], 'lib/storage/index/skip_list_index.go', """	slidx.deleteEntryInner(oldKey, oldRID, txn, true)
+	slidx.insertEntryInner(newKey, newRID, txn, true)""", """	slidx.insertEntryInner(newKey, newRID, txn, true)
+	slidx.deleteEntryInner(oldKey, oldRID, txn, true)""", ['C17-R1 [SkipListIndex.UpdateEntry:delete-before-insert]'])
+m('float-key-from-sign-bit', ['C07', 'C17'], 'lib/samehada/samehada_util/samehada_util.go', """		if f >= 0 {
+			u |= SignMaskBig""", """		if u&SignMaskBig == 0 && f == f {
+			u |= SignMaskBig""", ['C07-R8 [encodeToDicOrderComparableBytes:float-key-not-from-bits-alone'])
 # drop the one that needs a helper that does not exist
 M = [x for x in M if x['id'] != 'insert-executor-unlocks-early']
 os.chdir(os.path.dirname(os.path.abspath(__file__)) + '/..')
